@@ -90,6 +90,35 @@ pub fn judge_exact(c: &mut Ctx, op: &'static str, what: &'static str, ins: &[u64
     }
 }
 
+/// Pool of earlier results fed back as operands (values reachable only through chains of operations).
+pub struct Pool {
+    v: Vec<W>,
+    emin: i64,
+    emax: i64,
+}
+impl Pool {
+    pub fn new(emin: i64, emax: i64) -> Self {
+        Pool { v: Vec::new(), emin, emax }
+    }
+    pub fn offer(&mut self, r: &mut Rng, x: W) {
+        if x.0 != 0.0 && valid_ref(x.0, x.1) && exp_of(x.0) >= self.emin && exp_of(x.0) <= self.emax {
+            if self.v.len() < 64 {
+                self.v.push(x);
+            } else {
+                let k = r.below(64) as usize;
+                self.v[k] = x;
+            }
+        }
+    }
+    pub fn pick(&self, r: &mut Rng) -> Option<W> {
+        if self.v.is_empty() {
+            None
+        } else {
+            Some(self.v[r.below(self.v.len() as u64) as usize])
+        }
+    }
+}
+
 struct Climber {
     pool: Vec<(f64, W, W)>,
 }
@@ -587,8 +616,35 @@ pub fn c03(c: &mut Ctx) {
     let n = c.budget(10_000_000, 1_000_000_000) / 12;
     let mut cl_tt = Climber::new();
     let mut cl_tf = Climber::new();
+    let mut pool = Pool::new(-1000, 999);
     for i in 0..n {
-        let (a, b, rel) = tf_pair(&mut c.rng, -1000, 1000);
+        let (mut a, mut b, rel) = tf_pair(&mut c.rng, -1000, 1000);
+        // a quarter of the operands are results of earlier operations of this run
+        if i % 4 == 3 {
+            if let Some(x) = pool.pick(&mut c.rng) {
+                a = x;
+            }
+            if c.rng.coin() {
+                if let Some(x) = pool.pick(&mut c.rng) {
+                    b = x;
+                }
+            }
+            c.count("chained_operand_cases");
+        }
+        if i % 4 >= 2 {
+            let k = c.rng.below(6);
+            let res = guard(|| w(match k {
+                0 => t(a) + t(b),
+                1 => t(a) - t(b),
+                2 => t(a) * t(b),
+                3 => t(a) / t(b),
+                4 => t(a) * 0.1,
+                _ => (t(a) * t(a) + t(b)).sqrt(),
+            }));
+            if let Ok(x) = res {
+                pool.offer(&mut c.rng, x);
+            }
+        }
         let a = zero_or(&mut c.rng, a);
         let r = c03_tt(c, a, b);
         cl_tt.offer(r, a, b);
@@ -804,8 +860,34 @@ pub fn c04(c: &mut Ctx) {
     let n = c.budget(10_000_000, 1_000_000_000) / 8;
     let mut cl_tt = Climber::new();
     let mut cl_tf = Climber::new();
+    let mut pool = Pool::new(-450, 449);
     for i in 0..n {
-        let (a, b, rel) = tf_pair(&mut c.rng, -450, 450);
+        let (mut a, mut b, rel) = tf_pair(&mut c.rng, -450, 450);
+        if i % 4 == 3 {
+            if let Some(x) = pool.pick(&mut c.rng) {
+                a = x;
+            }
+            if c.rng.coin() {
+                if let Some(x) = pool.pick(&mut c.rng) {
+                    b = x;
+                }
+            }
+            c.count("chained_operand_cases");
+        }
+        if i % 4 >= 2 {
+            let k = c.rng.below(6);
+            let res = guard(|| w(match k {
+                0 => t(a) + t(b),
+                1 => t(a) - t(b),
+                2 => t(a) * t(b),
+                3 => t(a) / t(b),
+                4 => t(a) * 3.0,
+                _ => t(a).recip(),
+            }));
+            if let Ok(x) = res {
+                pool.offer(&mut c.rng, x);
+            }
+        }
         let a = zero_or(&mut c.rng, a);
         let r = c04_tt(c, a, b);
         cl_tt.offer(r, a, b);
@@ -1053,6 +1135,7 @@ pub fn c05(c: &mut Ctx) {
     let mut cl_tt = Climber::new();
     let mut cl_tf = Climber::new();
     let mut cl_ft = Climber::new();
+    let mut pool = Pool::new(-450, 449);
     for i in 0..n {
         let (mut a, mut b, rel) = tf_pair(&mut c.rng, -450, 450);
         // quotients just above / below powers of two: a = b * 2^k perturbed by a few ulps
@@ -1063,11 +1146,35 @@ pub fn c05(c: &mut Ctx) {
                 a = cand;
             }
         }
+        if i % 4 == 3 {
+            if let Some(x) = pool.pick(&mut c.rng) {
+                a = x;
+            }
+            if c.rng.coin() {
+                if let Some(x) = pool.pick(&mut c.rng) {
+                    b = x;
+                }
+            }
+            c.count("chained_operand_cases");
+        }
         if b.0 == 0.0 {
             std::mem::swap(&mut a, &mut b);
         }
         if b.0 == 0.0 {
             continue;
+        }
+        if i % 4 >= 2 {
+            let k = c.rng.below(5);
+            let res = guard(|| w(match k {
+                0 => t(a) + t(b),
+                1 => t(a) - t(b),
+                2 => t(a) * t(b),
+                3 => t(a) / t(b),
+                _ => t(b).recip(),
+            }));
+            if let Ok(x) = res {
+                pool.offer(&mut c.rng, x);
+            }
         }
         let r = c05_tt(c, a, b);
         cl_tt.offer(r, a, b);
